@@ -127,7 +127,7 @@ class World:
         if root in ('torch', 'numpy') and last in DTYPES and len(parts) == 2:
             return DType(last)
         if dotted in ('numpy.inf', 'math.inf'):
-            return Opaque('inf', 'inf', {'sign': 1})
+            return O.PINF
         if dotted in ('torch.Tensor', 'numpy.ndarray', 'pandas.DataFrame', 'pandas.Series',
                       'numpy.random.RandomState', 'torch.nn.Parameter', 'torch.masked.MaskedTensor'):
             return LibFn(dotted)
